@@ -335,7 +335,14 @@ fn check_fields(
                         } else {
                             notes.rerecord_older += 1;
                             if !notes.span_has_escaped && forms.len() == 1 {
+                                // a field that was recorded again must show what was recorded last:
+                                // an older value can only be explained by F8 (escaped names freeze
+                                // later records) or by the r#-key duplication, neither applies here
                                 notes.rerecord_older_clean += 1;
+                                return Err(mm(
+                                    "stale_rerecorded_value",
+                                    format!("{what}: field {name:?} was recorded {} times; the output shows the value of recording #{} instead of the latest", accepted.len(), ai + 1),
+                                ));
                             }
                         }
                     }
